@@ -30,14 +30,17 @@ from vlib.engine import SubCheck, check, fail, discard, Fail
 from vlib.cmp import same_bits, close, as_array, assert_shape
 
 PROPERTY = "C14"
-RULE = ("Data tensors of order 2-4 (CP), 2-4 (Tucker), 3 (PARAFAC2; ragged slice lists included) with sides 2-4, "
-        "rank 1-3; user initialisations given as tuple / list / wrapper object with weights None / ones / positive / "
-        "negative / mixed (non-negative algorithms: positive only); fixed-mode subsets in any order, never containing the "
-        "last mode where the library removes it (all-modes case for parafac, tucker, HALS with tol=0); budgets 0-3; "
-        "Tucker fixed factors orthonormal (non-orthonormal = separate sub-check, clause (b) only). Oracle: dense "
-        "reconstructions by np.einsum sublists from pristine copies of the supplied init (a: rel 1e-10), bitwise "
-        "comparison of fixed-mode factors (b), dense iterate of the weighted start vs. the start with weights absorbed "
-        "into a drawn mode (c: rel 1e-8 of max(|X|,|iterate|), tol=0, no l2_reg). "
+RULE = ("Data tensors of order 2-4 (CP, Tucker) / 3 (PARAFAC2, ragged slice lists included) with sides 2-4, rank 1-3, "
+        "float64 (float32 in a third of the CP cases); user initialisations given as tuple / list / wrapper object with "
+        "weights None / ones / positive / negative / mixed (non-negative algorithms: positive only); fixed-mode subsets in "
+        "any order, never containing the last mode where the library removes it (all-modes case for parafac, tucker, and "
+        "HALS with tol=0); budgets 0-3; Tucker fixed factors orthonormal (non-orthonormal = separate sub-check, clause (b) "
+        "only). Oracle: dense reconstructions by np.einsum sublists from pristine copies of the supplied init (a: rel "
+        "1e-10), bitwise comparison of fixed-mode factors (b), dense iterate of the weighted start vs. the start with the "
+        "weights absorbed into a drawn mode (c: rel 1e-8 of max(1,|X|,|iterate|), tol=0, no l2_reg; HALS with non-uniform "
+        "weights 1e-2 because its inner early stop is not scale-invariant). Counted discards: LinAlgError; sweeps whose "
+        "iterate moves by > 1e-9 under a 1e-12 perturbation of the start (ill-conditioned); PARAFAC2 starts whose "
+        "projection step is rank-deficient. "
         "Non-trivial: non-unit weights or at least one fixed mode; distinct = distinct case hash.")
 ASSUMPTIONS = ["NumPy einsum / linalg.qr are correct", "Hypothesis generates what its strategies describe",
                "CP-ALS, multiplicative NN-CP, HALS NN-CP and PARAFAC2-ALS sweeps are column-scaling-equivariant up to "
